@@ -17,7 +17,7 @@ VERDICT = "c08_verdict"
 EXPLAIN = "c08_explain"
 CASES_PER_FILE = 120
 CASE_TIMEOUT = 5
-TIERS = {"quick": {"n": 1600}, "thorough": {"n": 16000, "exhaustive": True}}
+TIERS = {"quick": {"n": 1600}, "thorough": {"n": 40000, "exhaustive": True}}
 RULE = ("object graphs of <= 12 containers (list/tuple/dict/set/frozenset, empty ones included), leaves of 8 python "
         "types, sharing probability ~0.2 and back-edge (cycle) probability ~0.1, visit programs (ordered rules "
         "predicate -> drop | keep | new key/new leaf) over key, depth, path, leaf token, kind and len, or the "
@@ -234,6 +234,25 @@ def eval_pred(q, p, k, s):
     raise ValueError(op)
 
 
+def fresh_value(d):
+    """the new value a visit rule returns: a leaf token, or ["V", desc] = a container built afresh on every
+    call (desc = ["L", n] | ["N", kind, [desc, ...]]; only hashable kinds, so it may replace a set member)"""
+    if isinstance(d, int):
+        return leaf(d)
+
+    def mk(x):
+        if x[0] == "L":
+            return leaf(x[1])
+        return KINDS[x[1]](mk(c) for c in x[2])
+    return mk(d[1])
+
+
+def cval(x):
+    if x[0] == "L":
+        return "(VLeaf %d)" % x[1]
+    return "(VNode %s [%s])" % (KCOQ[x[1]], "; ".join("(KI %d, %s)" % (i, cval(c)) for i, c in enumerate(x[2])))
+
+
 class VisitBoom(Exception):
     pass
 
@@ -253,7 +272,7 @@ def make_visit(prog, calls):
                 if a[0] == "raise":
                     raise VisitBoom()
                 nk = key if a[1] is None else keyobj(a[1])
-                nv = value if a[2] is None else leaf(a[2])
+                nv = value if a[2] is None else fresh_value(a[2])
                 return (nk, nv)
         return True
     return visit
@@ -391,7 +410,8 @@ def cact(a):
     if a[0] == "raise":
         return "None"
     return "(Some (Put %s %s))" % ("None" if a[1] is None else "(Some %s)" % ckey(a[1]),
-                            "None" if a[2] is None else "(Some %d)" % a[2])
+                                   "None" if a[2] is None else
+                                   "(Some (VLeaf %d))" % a[2] if isinstance(a[2], int) else "(Some %s)" % cval(a[2][1]))
 
 
 def csview(s):
@@ -479,6 +499,16 @@ def gen_leaf(rng):
     return rng.randrange(24) if r < 0.85 else rng.randrange(64)
 
 
+def gen_newval(rng):
+    if rng.random() < 0.7:
+        return gen_leaf(rng)
+    a, b, c = rng.sample(range(4, 24), 3)           # plain leaves, pairwise !=
+    return ["V", rng.choice([
+        ["N", "tuple", []], ["N", "tuple", [["L", a]]], ["N", "tuple", [["L", a], ["N", "tuple", [["L", b]]]]],
+        ["N", "frozenset", []], ["N", "frozenset", [["L", a], ["L", b]]],
+        ["N", "tuple", [["N", "frozenset", [["L", c]]], ["L", a]]]])]
+
+
 def gen_prog(rng):
     r = rng.random()
     if r < 0.15:
@@ -492,11 +522,11 @@ def gen_prog(rng):
             act = ["drop"]
         elif a < 0.5:
             act = ["keep"]
-        elif a < 0.58:
+        elif a < 0.61:
             act = ["raise"]
         else:
             act = ["put", gen_key(rng) if rng.random() < 0.5 else None,
-                   gen_leaf(rng) if rng.random() < 0.5 else None]
+                   gen_newval(rng) if rng.random() < 0.55 else None]
         prog.append([gen_pred(rng), act])
     return prog
 
@@ -669,7 +699,10 @@ def generate(rng, tier, n):
                 if buildable(nodes):
                     break
         dotted = rng.random() < 0.5
-        yield {"nodes": nodes, "root": root, "visit": gen_prog(rng), "reraise": rng.choice([None, None, True, False, False]),
+        prog = gen_prog(rng)
+        raises = prog is not None and any(a[0] == "raise" for _, a in prog)
+        yield {"nodes": nodes, "root": root, "visit": prog,
+               "reraise": rng.choice([None, True, False, False, False] if raises else [None, None, True, False]),
                "query": ["true"] if rng.random() < 0.35 else gen_pred(rng), "dc": rng.random() < 0.3,
                "dotted": dotted,
                "qraise": gen_pred(rng, 1) if rng.random() < 0.2 else None,
